@@ -39,6 +39,40 @@ type Opts struct {
 	Ctx              context.Context
 	// Lines are handed to Readline one by one (REPL input), then EOF
 	Lines []string
+	// NoSeek: files of the virtual file system do not implement io.Seeker (like pipes and
+	// fifos), so fq has to take its read-everything-into-memory path when opening them
+	NoSeek bool
+}
+
+// noSeekFS hides every method but Read/Stat/Close (and ReadDir) of the files of an fs.FS.
+type noSeekFS struct{ fs.FS }
+
+type noSeekFile struct{ f fs.File }
+
+func (n noSeekFile) Read(p []byte) (int, error) { return n.f.Read(p) }
+func (n noSeekFile) Stat() (fs.FileInfo, error) { return n.f.Stat() }
+func (n noSeekFile) Close() error               { return n.f.Close() }
+
+type noSeekDir struct{ noSeekFile }
+
+func (n noSeekDir) ReadDir(c int) ([]fs.DirEntry, error) {
+	if d, ok := n.f.(fs.ReadDirFile); ok {
+		return d.ReadDir(c)
+	}
+	return nil, fs.ErrInvalid
+}
+
+func (n noSeekFS) Open(name string) (fs.File, error) {
+	f, err := n.FS.Open(name)
+	if err != nil {
+		return nil, err
+	}
+	if _, ok := f.(fs.ReadDirFile); ok {
+		if fi, err := f.Stat(); err == nil && fi.IsDir() {
+			return noSeekDir{noSeekFile{f}}, nil
+		}
+	}
+	return noSeekFile{f}, nil
 }
 
 type Result struct {
@@ -136,7 +170,12 @@ func (v *vos) Environ() []string {
 	return out
 }
 func (v *vos) ConfigDir() (string, error) { return "/config", nil }
-func (v *vos) FS() fs.FS                  { return v.fsys }
+func (v *vos) FS() fs.FS {
+	if v.o.NoSeek {
+		return noSeekFS{v.fsys}
+	}
+	return v.fsys
+}
 func (v *vos) Readline(opts interp.ReadlineOpts) (string, error) {
 	if v.line < len(v.o.Lines) {
 		v.line++
